@@ -1,0 +1,88 @@
+//go:build verif
+
+// Machine-checked contracts for package utils (comment-only; read by /verif/govc).
+package utils
+
+//@ func ghost BitList.model map[int]bool
+
+// bit j (0 = first / most significant bit of word 0) of the packed representation
+//@ define bitOf(d []int32, j int) bool = ((d[j/32] >> (31 - j%32)) & 1) == 1
+
+// representation invariant: the ghost sequence `model` is what the words hold; nothing is set
+// beyond the length (GetBytes / IterateBytes promise zero padding and read whole words)
+//@ define inv(bl *BitList) bool = bl != nil && 0 <= bl.count && bl.count <= 32*len(bl.data) && len(bl.data) <= 67108864
+//@    && (forall j int :: 0 <= j && j < 32*len(bl.data) ==> bl.model[j] == bitOf(bl.data, j))
+//@    && (forall j int :: (j < 0 || j >= bl.count) ==> !bl.model[j])
+
+//@ func (*BitList).Len
+//@   abstract
+//@   requires bl != nil
+//@   ensures result == bl.count
+
+//@ func (*BitList).SetBit
+//@   abstract
+//@   requires#rep inv(bl)
+//@   requires 0 <= index && index < bl.count
+//@   modifies#rep bl.data[index/32]
+//@   sets bl.model = store(bl.model, index, value)
+//@   ensures#rep inv(bl)
+
+//@ func (*BitList).GetBit
+//@   abstract
+//@   requires#rep inv(bl)
+//@   requires 0 <= index && index < bl.count
+//@   ensures result == bl.model[index]
+
+//@ func NewBitList
+//@   requires 0 <= capacity && capacity <= 1073741824
+//@   ensures fresh(result) && inv(result) && result.count == capacity
+//@   sets result.model = constmap(false)
+
+//@ func (*BitList).grow
+//@   requires inv(bl) && len(bl.data) <= 67108864 - 1024
+//@   modifies bl.data
+//@   ensures inv(bl) && len(bl.data) >= old(len(bl.data)) + 128 && fresh(bl.data)
+//@   ensures bl.count == old(bl.count) && bl.model == old(bl.model)
+
+//@ func (*BitList).AddBit
+//@   abstract
+//@   attr inline SetBit
+//@   requires#rep inv(bl)
+//@   requires bl != nil && bl.count + len(bits) <= 1073741824
+//@   modifies#rep bl.data, bl.data[:]
+//@   sets bl.count = old(bl.count) + len(bits)
+//@   sets bl.model = arrcopy(old(bl.model), old(bl.count), bits)
+//@   ensures#rep inv(bl) && (bl.data == old(bl.data) || fresh(bl.data))
+//@   loop 1 invariant inv(bl) && -1 <= rangeindex && rangeindex < len(bits)
+//@   loop 1 invariant bl.count == old(bl.count) + rangeindex + 1 && (bl.data == old(bl.data) || fresh(bl.data))
+//@   loop 1 invariant forall j int :: (j < old(bl.count) || j > old(bl.count) + rangeindex) ==> bl.model[j] == old(bl.model[j])
+//@   loop 1 invariant forall j int :: old(bl.count) <= j && j <= old(bl.count) + rangeindex ==> bl.model[j] == bits[j-old(bl.count)]
+//@   loop 1 decreases len(bits) - rangeindex
+//@   loop 2 invariant inv(bl) && bl.count == old(bl.count) + rangeindex && itmIndex == bl.count/32
+//@   loop 2 invariant 0 <= rangeindex && rangeindex < len(bits) && (bl.data == old(bl.data) || fresh(bl.data))
+//@   loop 2 invariant forall j int :: (j < old(bl.count) || j >= old(bl.count) + rangeindex) ==> bl.model[j] == old(bl.model[j])
+//@   loop 2 invariant forall j int :: old(bl.count) <= j && j < old(bl.count) + rangeindex ==> bl.model[j] == bits[j-old(bl.count)]
+//@   loop 2 decreases itmIndex - len(bl.data) + 1
+
+//@ func (*BitList).AddByte
+//@   abstract
+//@   requires#rep inv(bl)
+//@   requires bl != nil && bl.count + 8 <= 1073741824
+//@   modifies#rep bl.data, bl.data[:]
+//@   sets bl.count = old(bl.count) + 8
+//@   sets bl.model = putbits(old(bl.model), old(bl.count), b, 8)
+//@   ensures#rep inv(bl)
+//@   loop 1 unroll
+
+//@ func (*BitList).AddBits
+//@   abstract
+//@   requires#rep inv(bl)
+//@   requires bl != nil && bl.count + count <= 1073741824 && count <= 64
+//@   modifies#rep bl.data, bl.data[:]
+//@   sets bl.count = old(bl.count) + count
+//@   sets bl.model = putbits(old(bl.model), old(bl.count), b, count)
+//@   ensures#rep inv(bl)
+//@   loop 1 invariant inv(bl) && -1 <= i && i < count && bl.count == old(bl.count) + (count - 1 - i) && (bl.data == old(bl.data) || fresh(bl.data))
+//@   loop 1 invariant forall j int :: (j < old(bl.count) || j >= bl.count) ==> bl.model[j] == old(bl.model[j])
+//@   loop 1 invariant forall j int :: old(bl.count) <= j && j < bl.count ==> bl.model[j] == (((b >> (old(bl.count) + count - 1 - j)) & 1) == 1)
+//@   loop 1 decreases i + 1
